@@ -110,8 +110,7 @@ impl C12 {
             let lxp = to_lax(&px);
             let inp = || json!({"functor": format!("{:?}", spec), "f": show_lax(&px)});
             // (the deprecated name of the same entry point must treat such an argument the same way)
-            #[allow(deprecated)]
-            let shim = lib(ctx, "lax::functor::define_map_arrow(shim)", "pending_argument", &inp, || lax::functor::define_map_arrow(&lfun, &lxp));
+            let shim = lib(ctx, "lax::functor::define_map_arrow(shim)", "pending_argument", &inp, || crate::compat::lax_functor_shim(&lfun, &lxp)).flatten();
             if let Some(img) = shim {
                 match walk_lax(ctx, "lax::functor::define_map_arrow(shim)", "pending_argument", &img, &inp).map(|pl| pl.strict()) {
                     Some(Ok((got, _))) => {
@@ -143,8 +142,7 @@ impl C12 {
         }
         // deprecated shim lax::functor::define_map_arrow = dyn_functor::define_map_arrow
         {
-            #[allow(deprecated)]
-            let a = lib(ctx, "lax::functor::define_map_arrow(shim)", class, &input, || lax::functor::define_map_arrow(&lfun, &lx));
+            let a = lib(ctx, "lax::functor::define_map_arrow(shim)", class, &input, || crate::compat::lax_functor_shim(&lfun, &lx)).flatten();
             let b = lib(ctx, "lax::Functor::map_arrow(dyn)", class, &input, || lfun.map_arrow(&lx));
             if let (Some(a), Some(b)) = (a, b) {
                 let strictify = |x: &LOh<u32, u64>| from_lax(x).ok().and_then(|pl| pl.strict().ok()).map(|x| x.0);
